@@ -15,7 +15,8 @@ RULE = ("cases = zoo crystal x supercell x primitive matrix x FC class (arbitrar
         "full/compact x dense/sparse x lang C/Py; identities per case: D=D^dagger, D(-q)=conj D(q), spec D(q+G)=spec D(q) (G in [-3,3]^3), "
         "spec D(Rq)=spec D(q) for all reciprocal operations (symmetric FC with measured symmetry precondition only), three zero eigenvalues at Gamma (ASR), "
         "(s/t) scaling via force_constants and masses setters; non-trivial = max|D|>0 and D not block diagonal; "
-        "distinct = (crystal, order, smat, pmat, class, layout, svecs, lang)")
+        "distinct = (crystal, order, smat, pmat, class, layout, svecs, lang); "
+        "additions of rounds 6-8: zone centre given as a non-zero reciprocal lattice vector; primitive cell in another atom order; force-constant memory layouts; structures rounded to 6 decimals")
 ASSUMPTIONS = [
     "symmetry precondition (FC invariant under the supercell space group, supercell point group as large as the primitive one) is measured by the harness' own group action",
     "no NAC (Wang's term is not G-periodic by construction; the statement does not claim it)",
